@@ -130,9 +130,9 @@ class DictProxy(dict):
 
         return (validated_key, validated_value)
 
-    def setdefault(self, key: Any, value: Any) -> None:
+    def setdefault(self, key: Any, value: Any = None) -> Any:
         key, value = self._validate(key, value)
-        super().setdefault(key, value)
+        return super().setdefault(key, value)
 
     def __eq__(self, other: Any) -> bool:
         if other is None or not isinstance(other, dict):
